@@ -73,6 +73,45 @@ CASES = [
                     if n:
                         self.note(n)
      ''', 'run', ['n = self.count'], []),
+    ('N48 read in a nested block, only a standard-library call in between', '''
+        class K:
+            def found(self, result):
+                setter = self.fut.set_result
+                if self.fut.done():
+                    return
+                setter(result)
+                self.transport.pause_reading()
+     ''', 'found', ['self.fut.set_result(result)'], ['setter']),
+    ('N48 not when a package call may run before the nested read', '''
+        class K:
+            def rearm(self):
+                self.fut = self.make()
+                return False
+
+            def found(self, result):
+                setter = self.fut.set_result
+                if self.rearm():
+                    return
+                setter(result)
+     ''', 'found', ['setter = self.fut.set_result', 'setter(result)'], []),
+    ('N48 not when an earlier iteration of the loop makes a call', '''
+        class K:
+            def run(self, xs):
+                t = self.tab
+                for x in xs:
+                    if x in t:
+                        self.step(x)
+     ''', 'run', ['t = self.tab'], []),
+    ('N43 not through a field that is re-bound later in the package', '''
+        class K:
+            def reset(self):
+                self.store = self.make()
+
+            def f(self, x):
+                w = self.store.write
+                self.reset()
+                w(x)
+     ''', 'f', ['w = self.store.write', 'w(x)'], []),
     # ---- N49 copy coalescing
     ('N49 helper copy of a dead variable', '''
         class K:
@@ -192,6 +231,93 @@ CASES = [
         def over(n):
             return n > LIMIT
      ''', 'over', ['LIMIT'], []),
+    # ---- older rules: guards
+    ('N24 len of a list that is extended afterwards is not propagated', '''
+        def f(buf, x):
+            n = len(buf)
+            buf.append(x)
+            return n
+     ''', 'f', ['n = len(buf)', 'return n'], []),
+    ('N24 not for a local bound in a loop', '''
+        def f(xs):
+            out = []
+            for x in xs:
+                k = (x, 1)
+                out.append(k)
+            return out
+     ''', 'f', [], ['zzz']),
+    ('N39 an unread call result keeps the call', '''
+        class K:
+            def f(self):
+                x = self.step()
+                return 1
+     ''', 'f', ['self.step()'], ['x = ']),
+    ('N43 bound-method alias not across a re-binding of the method', '''
+        class K:
+            def f(self, other):
+                m = self.meth
+                self.meth = other
+                return m()
+     ''', 'f', ['m = self.meth', 'return m()'], []),
+    ('N43 bound-method alias not across a re-binding of the receiver', '''
+        class K:
+            def f(self, a, b):
+                m = a.meth
+                a = b
+                return m()
+     ''', 'f', ['m()'], ['return a.meth()', 'return b.meth()']),
+    ('N46 a dict that is stored into afterwards is not a table', '''
+        def f(k):
+            d = {1: 'a'}
+            d[2] = 'b'
+            return d.get(k)
+     ''', 'f', ['d.get(k)'], []),
+    ('N46 a dict handed to a call is not a table', '''
+        def f(k, g):
+            d = {1: 'a'}
+            g(d)
+            return d.get(k)
+     ''', 'f', ['d.get(k)'], []),
+    ('N42 a marker test on the result of a function that may return the marker stays', '''
+        _NONE = object()
+
+        def pick(q):
+            if q:
+                return q[0]
+            return _NONE
+
+        def f(q):
+            x = pick(q)
+            if x is _NONE:
+                return 0
+            return 1
+     ''', 'f', ['return 0', 'return 1'], []),
+    ('N34 webs: not when a read may see either binding', '''
+        class K:
+            def f(self, c):
+                s = self.a
+                if c:
+                    s = self.b
+                return s.read()
+     ''', 'f', ['s.read()'], ['self.a.read()', 'self.b.read()']),
+    ('N36 min clamp', '''
+        def f(x, e):
+            x = min(x, e)
+            return x
+     ''', 'f', [], ['zzz']),
+    ('N5/N44 a temp read after an intervening call is not folded into the call', '''
+        class K:
+            def f(self):
+                t = self.pos
+                self.move()
+                return self.at(t)
+     ''', 'f', ['t = self.pos', 'self.at(t)'], []),
+    ('N13b x = None under x is None only', '''
+        def f(x):
+            if x is not None:
+                x = None
+            return x
+     ''', 'f', ['x = None'], []),
 ]
 
 
